@@ -36,3 +36,108 @@ macro_rules! ensure {
         }
     };
 }
+
+/// Iterator protocol: however an iterator of the crate is consumed (next, nth, skip, step_by, take, last,
+/// count), it must yield the items that repeated next() yields, in the same order; `key` turns an item
+/// into something comparable (e.g. its text including counters). `programs` fixed pseudo-random
+/// consumption programs are run, each on a fresh iterator from `make`.
+pub fn iter_protocol<'a, T, I, K>(make: impl Fn() -> I, key: impl Fn(&T) -> K, programs: usize, what: &str) -> Result<usize, String>
+where
+    I: Iterator<Item = T> + 'a,
+    T: 'a,
+    K: PartialEq + std::fmt::Debug,
+{
+    let base: Vec<K> = make().map(|x| key(&x)).collect();
+    let mut exercised = 0;
+    for p in 0..programs {
+        let mut it: Box<dyn Iterator<Item = T> + 'a> = Box::new(make());
+        // indices into `base` that the adapted iterator still has to yield
+        let mut rest: std::collections::VecDeque<usize> = (0..base.len()).collect();
+        let mut trace = String::new();
+        let mut s = (p as u64).wrapping_mul(0x9E37_79B9_7F4A_7C15) ^ 0xD1B5_4A32_D192_ED03;
+        let mut rnd = |n: u64| {
+            s ^= s << 13;
+            s ^= s >> 7;
+            s ^= s << 17;
+            s % n
+        };
+        for _step in 0..12 {
+            let op = rnd(8);
+            match op {
+                0 | 1 => {
+                    trace.push_str(".next()");
+                    let got = it.next().map(|x| key(&x));
+                    let exp = rest.pop_front();
+                    if got.as_ref() != exp.map(|i| &base[i]) {
+                        return Err(format!("{}: iter{} yields {:?}, repeated next() yields {:?} at that place", what, trace, got, exp.map(|i| &base[i])));
+                    }
+                }
+                2 => {
+                    let k = rnd(4) as usize;
+                    trace.push_str(&format!(".nth({})", k));
+                    let got = it.nth(k).map(|x| key(&x));
+                    for _ in 0..k {
+                        rest.pop_front();
+                    }
+                    let exp = rest.pop_front();
+                    if got.as_ref() != exp.map(|i| &base[i]) {
+                        return Err(format!("{}: iter{} yields {:?}, repeated next() yields {:?} at that place", what, trace, got, exp.map(|i| &base[i])));
+                    }
+                }
+                3 => {
+                    let k = rnd(4) as usize;
+                    trace.push_str(&format!(".skip({})", k));
+                    it = Box::new(it.skip(k));
+                    for _ in 0..k {
+                        rest.pop_front();
+                    }
+                }
+                4 => {
+                    let k = 1 + rnd(3) as usize;
+                    trace.push_str(&format!(".step_by({})", k));
+                    it = Box::new(it.step_by(k));
+                    rest = rest.iter().cloned().step_by(k).collect();
+                }
+                5 => {
+                    let k = rnd(6) as usize + rest.len() / 2;
+                    trace.push_str(&format!(".take({})", k));
+                    it = Box::new(it.take(k));
+                    rest.truncate(k);
+                }
+                6 => {
+                    let (lo, hi) = it.size_hint();
+                    if lo > rest.len() || hi.map_or(false, |h| h < rest.len()) {
+                        return Err(format!("{}: iter{}.size_hint() = ({}, {:?}) with {} items left", what, trace, lo, hi, rest.len()));
+                    }
+                }
+                _ => {
+                    if rnd(2) == 0 {
+                        trace.push_str(".last()");
+                        let got = it.last().map(|x| key(&x));
+                        let exp = rest.back().cloned();
+                        if got.as_ref() != exp.map(|i| &base[i]) {
+                            return Err(format!("{}: iter{} yields {:?}, the last item of repeated next() is {:?}", what, trace, got, exp.map(|i| &base[i])));
+                        }
+                    } else {
+                        trace.push_str(".count()");
+                        let got = it.count();
+                        if got != rest.len() {
+                            return Err(format!("{}: iter{} = {}, repeated next() yields {} more items", what, trace, got, rest.len()));
+                        }
+                    }
+                    it = Box::new(std::iter::empty());
+                    rest.clear();
+                    break;
+                }
+            }
+        }
+        // drain: everything that is left must come out in order
+        let tail: Vec<K> = it.map(|x| key(&x)).collect();
+        let exp: Vec<&K> = rest.iter().map(|&i| &base[i]).collect();
+        if tail.len() != exp.len() || tail.iter().zip(exp.iter()).any(|(a, b)| a != *b) {
+            return Err(format!("{}: iter{} then yields {:?}, repeated next() yields {:?}", what, trace, tail.iter().take(6).collect::<Vec<_>>(), exp.iter().take(6).collect::<Vec<_>>()));
+        }
+        exercised += 1;
+    }
+    Ok(exercised)
+}
